@@ -140,7 +140,7 @@ def explore_job(job):
             out = {"status": rec["status"], "msg": rec.get("msg"), "decisions": rec["decisions"],
                    "trace": rec["trace"][:200], "inconclusive": rec["inconclusive"],
                    "exc_type": rec.get("exc_type"), "notes": rec["notes"]}
-            need_w = rec["status"] in ("ok", "exception")
+            need_w = rec["status"] in ("ok", "exception", "bound-exceeded")
             m = None
             if need_w:
                 try:
@@ -161,6 +161,8 @@ def explore_job(job):
                             "params": _ser_params(eng, o["model"])})
             out["obligs"] = obl
             fnd = []
+            if rec["status"] == "bound-exceeded":
+                rec["findings"].append({"kind": "bound-exceeded", "detail": rec.get("msg") or "", "model": m})
             for f in rec["findings"]:
                 mm = f["model"] if f["model"] is not None else m
                 fnd.append({"kind": f["kind"], "detail": f["detail"], "params": _ser_params(eng, mm)})
